@@ -397,8 +397,10 @@ theorem kc_bar_from (s : KeltnerChannel F) (bs : List (Bar F)) :
   induction bs generalizing s with
   | nil => rfl
   | cons b bs ih =>
+    have ht : KeltnerChannel.typicalPrice b = typical b := rfl
     rw [outputs_cons_some (KeltnerChannel.nextBar_eq s b), ih, List.map_cons, ema_cons,
       outputs_cons_some (AverageTrueRange.nextBar_eq s.atr b)]
+    simp only [ht]
     cases outputs ExponentialMovingAverage.next
         (ExponentialMovingAverage.step s.ema (typical b)) (bs.map typical) with
     | none => rfl
